@@ -29,8 +29,12 @@ type skel struct {
 	final htmltok.Final
 }
 
-func skeleton(out string, scripting bool) skel {
-	r := htmltok.Tokenize([]byte(out), htmltok.Options{Scripting: scripting})
+func skeleton(out string, scripting bool) skel { return skeletonOpt(out, scripting, false) }
+
+// skeletonOpt: noSwitch models foreign content (svg / math), where the tokenizer never leaves the data state after a
+// start tag and CDATA sections exist.
+func skeletonOpt(out string, scripting, noSwitch bool) skel {
+	r := htmltok.Tokenize([]byte(out), htmltok.Options{Scripting: scripting, NoStateSwitch: noSwitch})
 	f := r.Final
 	// a dangling tag-open at the very end ("...<") is normalised to the data state
 	if f.State == "TagOpen" {
@@ -130,6 +134,13 @@ func check(c Case) evid.Outcome {
 			o.NonTrivial = true
 		}
 	}
+	if hasFlag(c.Prog.Flags, "zone:K-foreign") {
+		// foreign content: data independence must also hold when the tokenizer never switches state
+		sh, si := skeletonOpt(out, true, true), skeletonOpt(outI, true, true)
+		if sh.String() != si.String() {
+			return evid.Viol("data changed the markup structure under the foreign-content reading (no tokenizer state switch)\ntemplate: %q\ndata: %+v\noutput:       %q\ninert output: %q\nskeleton:       %s\ninert skeleton: %s", text, c.Data, out, outI, sh, si)
+		}
+	}
 	for _, scripting := range []bool{false, true} {
 		sh, si := skeleton(out, scripting), skeleton(outI, scripting)
 		// relation 2: data independence (both tokenizer configurations)
@@ -146,7 +157,7 @@ func check(c Case) evid.Outcome {
 		v := evid.Viol("engine output does not have the structure the author wrote\ntemplate: %q\ninert output: %q\nreference:    %q\nskeleton:           %s\nreference skeleton: %s", text, outI, rb.String(), si, sr)
 		// known deviations of the author relation, each tied to the construct the generator itself flagged
 		// (data independence and the no-comment rule above are enforced inside these zones as everywhere else)
-		for _, z := range []string{"K-cmt", "K-rawnest", "K-bogus", "boundary-lt", "K-tagname"} {
+		for _, z := range []string{"K-cmt", "K-rawnest", "K-bogus", "boundary-lt", "K-tagname", "K-foreign"} {
 			if hasFlag(c.Prog.Flags, "zone:"+z) {
 				v.Finding = z
 				if z == "boundary-lt" {
@@ -158,6 +169,15 @@ func check(c Case) evid.Outcome {
 			}
 		}
 		return v
+	}
+	if hasFlag(c.Prog.Flags, "zone:K-foreign") {
+		// the author relation under the foreign-content reading
+		fi, fr := skeletonOpt(outI, true, true), dropComments(skeletonOpt(rb.String(), true, true))
+		if fi.String() != fr.String() {
+			v := evid.Viol("engine output does not have the structure the author wrote under the foreign-content reading (svg / math)\ntemplate: %q\ninert output: %q\nreference:    %q\nskeleton:           %s\nreference skeleton: %s", text, outI, rb.String(), fi, fr)
+			v.Finding = "K-foreign"
+			return v
+		}
 	}
 	o.Labels = append(o.Labels, "accepted")
 	return o
